@@ -1,6 +1,6 @@
 """C05 -- DoWhile unrolling is wired correctly for any number of iterations.  Spec: spec/DoWhile.tla
 
-1. TLC checks the clauses of C05 (ExactInstances, CarriedFromPrevious, OthersFromOriginal, SameIterationInside,
+1. TLC checks the clauses of C05 (and that the controller's inspections, action Inspect, leave the workflow unchanged) (ExactInstances, CarriedFromPrevious, OthersFromOriginal, SameIterationInside,
    NoStageDrift, LatestIsHighest, AggregateInOrder, OutsideResolution, ConditionFromNewest) on every reachable state of the unrolling state
    machine for every document shape of the family (import stage, 1-2 looped components, body stages, with/without
    loopBindings and which component carries them, condition producer, replication inside the loop, names one of which
@@ -173,6 +173,14 @@ def key_of(sh, site, kmax):
 
 # ----------------------------------------------------------------------------------------------------------------
 # the real thing
+KINDS = ["init", "report", "preds", "state"]
+
+
+class FakeStatus:
+    def monitorComponent(self, *args, **kwargs):
+        pass
+
+
 class RealLoop:
     def __init__(self, sh, scratch):
         import yaml
@@ -197,13 +205,56 @@ class RealLoop:
             self.validation_error = e
         self.wg = self.exp.experimentGraph
         self.stdout_done = set()
+        self.controller = None
+        self.components = []          # the graph only keeps weak references to the ComponentState objects
 
     def doc_id(self, d):
         return "stage%d.loop%d" % (off(self.sh, d), d)
 
+    def build_controller(self):
+        """a real Controller on the experiment (as tests/test_control.py:new_controller); it is never run()"""
+        import networkx
+        import experiment.runtime.control
+        import experiment.runtime.workflow
+        exp = self.exp
+        for job_name in networkx.topological_sort(exp.graph):
+            data = exp.graph.nodes[job_name]
+            stage = exp._stages[data["stageIndex"]]
+            job = stage.jobWithName(data["componentSpecification"].identification.componentName)
+            self.components.append(experiment.runtime.workflow.ComponentState(job, self.wg, create_engine=True))
+        self.controller = experiment.runtime.control.Controller(exp)
+        self.controller.initialise(exp._stages[0], FakeStatus())
+
     def iterate(self, d, i):
-        doc = self.wg._documents["DoWhile"][self.doc_id(d)]["document"]
-        return self.wg.instantiate_dowhile_next_iteration(doc, i, True)
+        """one more iteration of loop d.  With a controller: the runtime's own entry point (it numbers the iteration from the
+        DoWhile state, creates the jobs / ComponentStates and re-parses the graph); without: the WorkflowGraph call alone."""
+        meta = self.wg._documents["DoWhile"][self.doc_id(d)]
+        if self.controller is None:
+            return self.wg.instantiate_dowhile_next_iteration(meta["document"], i, True)
+        before = set(self.wg.graph.nodes)
+        self.controller._instantiate_next_dowhile_iteration(meta)
+        return sorted(set(self.wg.graph.nodes) - before)
+
+    def inspect(self, kind):
+        """the read-only entry points of the controller (spec action Inspect)"""
+        ctl, wg = self.controller, self.wg
+        if kind == "init":
+            ctl.initialise(self.exp._stages[0], FakeStatus())
+        elif kind == "report":
+            ctl.generate_status_report_for_nodes(None)
+            ctl.generate_status_report_for_nodes(None, filter_done=True)
+        elif kind == "preds":
+            for p in sorted(wg._placeholders):
+                ctl._comp_get_active_predecessors(p)
+            for n in sorted(wg.graph.nodes):
+                if "#" not in n:
+                    ctl._comp_get_active_predecessors(n)
+        elif kind == "state":
+            for p in sorted(wg._placeholders):
+                ctl.get_node_state(p)
+                ctl.node_is_active(p)
+        else:
+            raise MachineryError("unknown inspection %s" % kind)
 
     def write_stdouts(self):
         """every looped instance 'has run': its stdout (and the condition file) holds its own node name"""
@@ -367,42 +418,75 @@ def shape_key(sh):
 
 def run_history(args):
     """worker: one (shape, path).  Returns dict(viol=[(key, what, replay)], steps, states)"""
-    sh, path, states, scratch, label = args
+    sh, path, states, scratch, label = args[:5]
+    via = args[5] if len(args) > 5 else "controller"
     from .. import realenv  # noqa: F401  (disables logging, imports the package)
-    res = {"viol": [], "steps": 0, "label": label}
+    res = {"viol": [], "steps": 0, "label": label, "inspections": 0}
     real = None
     try:
         real = RealLoop(sh, scratch)
+        if via == "controller":
+            real.build_controller()
         k = {d: 0 for d in loops(sh)}
         seen = set()
 
-        def check(step, new):
+        def check(step, new, after=None):
+            """compare with the TLC state; after: the inspections performed since the comparison before"""
             kk = tuple(k[d] for d in loops(sh))
             st = states.get(kk)
             if st is None:
                 raise MachineryError("TLC emitted no state for shape %s k=%s" % (sh, kk))
-            for site, msg in compare(real, st, new, step):
-                key = key_of(sh, site, max(kk))
+            found = compare(real, st, new, step)
+            if after is None:
+                check.before = set(found)
+            for site, msg in found:
+                if after is not None:
+                    if (site, msg) in check.before:
+                        continue        # already wrong before the controller looked
+                    key = "%s:after-controller-inspection" % site
+                    msg = "after the read-only controller calls %s: %s" % (after, msg)
+                else:
+                    key = key_of(sh, site, max(kk))
                 if (key, site) in seen and len(res["viol"]) > 6:
                     continue
                 seen.add((key, site))
                 res["viol"].append((key, "shape %s path %s: %s" % (label, path[:sum(kk)], msg),
-                                    {"sh": sh, "path": path[:sum(kk)]}))
+                                    {"sh": sh, "path": path[:sum(kk)], "via": via}))
             res["steps"] += 1
+        check.before = set()
+
+        def inspections():
+            """spec action Inspect: every kind once, the order rotates with the number of unrollings"""
+            if real.controller is None:
+                return
+            n = sum(k.values())
+            order = KINDS[n % 4:] + KINDS[:n % 4]
+            for kind in order:
+                try:
+                    real.inspect(kind)
+                except MachineryError:
+                    raise
+                except Exception as e:
+                    res["viol"].append(("inspection-raises:%s" % kind, "shape %s path %s: controller inspection %s raised %r" % (
+                        label, path[:n], kind, e), {"sh": sh, "path": path[:n], "via": via}))
+                res["inspections"] += 1
+            check(None, None, after=order)
         if real.validation_error is not None:
             res["viol"].append((key_of(sh, "load-rejected", 0), "shape %s: the valid document is rejected by validateExperiment: %s" % (
                 label, str(real.validation_error)[:400]), {"sh": sh, "path": []}))
         check(None, None)
+        inspections()
         for d in path:
             k[d] += 1
             try:
                 new = real.iterate(d, k[d])
             except Exception as e:
                 res["viol"].append((key_of(sh, "iterate-raises", max(k.values())),
-                                    "shape %s path %s: instantiate_dowhile_next_iteration(loop %d, %d) raised %r" % (
-                                        label, path, d, k[d], e), {"sh": sh, "path": path}))
+                                    "shape %s path %s: unrolling iteration %d of loop %d (%s) raised %r" % (
+                                        label, path, k[d], d, via, e), {"sh": sh, "path": path, "via": via}))
                 break
             check((d, k[d]), new)
+            inspections()
     except MachineryError:
         raise
     except Exception as e:
@@ -428,7 +512,7 @@ def cfg_text(maxk, maxk2, offsets, names, repls, twins, emit, invariants=True, e
         maxk, maxk2, s(str(o) for o in offsets), s('"%s"' % x for x in names), s(str(r) for r in repls),
         s("TRUE" if t else "FALSE" for t in twins), "TRUE" if emit else "FALSE")
     if invariants:
-        body_ += "".join("INVARIANT %s\n" % i for i in INVARIANTS)
+        body_ += "".join("INVARIANT %s\n" % i for i in INVARIANTS) + "PROPERTY InspectReadOnly\n"
     return body_ + extra
 
 
@@ -470,8 +554,9 @@ def run(tier):
     r = tlc.run_tlc("DoWhile", c1, timeout=600, coverage=True)
     if not r["ok"]:
         raise MachineryError("DoWhile.tla: %s fails on the model:\n%s" % (r["violated"], r["out"][-2000:]))
-    if not r["coverage"].get("Iterate"):
-        raise MachineryError("action Iterate of DoWhile.tla never taken: %s" % r["coverage"])
+    for act in ("Iterate", "Inspect"):
+        if not r["coverage"].get(act):
+            raise MachineryError("action %s of DoWhile.tla never taken: %s" % (act, r["coverage"]))
     chk.add_tlc(r)
     # witness: the model reaches the region where numeral order and numeric order differ (expected violation)
     c2 = _cfg(os.path.join(gen, "DoWhile_lex_%s.cfg" % tier),
@@ -489,7 +574,7 @@ def run(tier):
     by_shape = {}
     for st in r3["cases"]:
         by_shape.setdefault(shape_key(st["sh"]), {})[tuple(st["k"])] = st
-    if len(by_shape) < 150 or len(r3["cases"]) != r["distinct"]:
+    if len(by_shape) < 150 or len(r3["cases"]) * 16 != r["distinct"]:     # one emitted state per set of inspections
         raise MachineryError("TLC emitted %d states of %d shapes, model has %d states" % (len(r3["cases"]), len(by_shape), r["distinct"]))
     jobs = []
     for sk in sorted(by_shape):
@@ -504,14 +589,18 @@ def run(tier):
             km = maxk if full else 3
         for pi, p in enumerate(paths_for(sh, km if not sh["twin"] else (km if thorough else 11), maxk2, tier)):
             lbl = label_of(sh)
-            jobs.append((sh, p, states, os.path.join(chk.scratch, "%s_%d" % (lbl, pi)), lbl))
+            # the first history of a shape goes through a real Controller (with inspections), further ones through the graph alone
+            jobs.append((sh, p, states, os.path.join(chk.scratch, "%s_%d" % (lbl, pi)), lbl, "controller" if pi == 0 else "graph"))
+        if thorough and sh["off"] == 0 and not sh["twin"]:
+            jobs.append((sh, [1] * 13, states, os.path.join(chk.scratch, "%s_g" % label_of(sh)), label_of(sh), "graph"))
     procs = max(1, min(8, (os.cpu_count() or 2) // 2))
     execute(chk, jobs, procs)
     chk.sample({"shape": jobs[0][0], "path": jobs[0][1], "states_compared": len(jobs[0][1]) + 1}, limit=2)
     chk.sample({"shape": jobs[-1][0], "path": jobs[-1][1], "states_compared": len(jobs[-1][1]) + 1}, limit=2)
-    chk.cov["rule"] = ("every valid document shape of DoWhile.tla (%d shapes) is built as a real package and unrolled on the real "
-                       "WorkflowGraph; after every instantiate_dowhile_next_iteration call the real graph is compared with the TLC state for "
-                       "that (shape, k); evaluations = compared states, distinct = distinct (shape, history) pairs" % len(by_shape))
+    chk.cov["rule"] = ("every valid document shape of DoWhile.tla (%d shapes) is built as a real package and unrolled through a real "
+                       "Controller (_instantiate_next_dowhile_iteration; twin extras through WorkflowGraph.instantiate_dowhile_next_iteration); after every "
+                       "unrolling, and again after the controller's read-only entry points (spec action Inspect: initialise, status report, "
+                       "_comp_get_active_predecessors, get_node_state), the real graph is compared with the TLC state for that (shape, k); evaluations = compared states, distinct = distinct (shape, history) pairs" % len(by_shape))
     chk.cov["exhaustive"] = True
     chk.cov["shapes"] = len(by_shape)
     chk.cov["histories"] = len(jobs)
@@ -519,6 +608,8 @@ def run(tier):
         "k <= %d for loop 1 (crosses 9 -> 10 -> 11%s), k <= %d for a second import of the same document" % (
             maxk, "; 19 -> 20 for the shapes imported at stage 1, 13 for the others" if thorough else "", maxk2),
         "documents outside the family (more than two looped components, nested loops, :copy/:link bindings) are not explored",
+        "the Controller is built as in tests/test_control.py (ComponentState per node, initialise(stage 0)) and never run(); the order of the "
+        "four inspection kinds rotates with the number of unrollings (the spec allows any order)",
         "looped instances are not executed: their stdout / condition files are written by the harness with the instance's own name",
         "edges into a consumer outside the loop are only required to contain the instance(s) the reference resolves to and to stay "
         "inside the loops (the implementation also keeps edges to earlier condition producers)",
@@ -555,5 +646,5 @@ def replay(path):
     states = {tuple(st["k"]): st for st in r["cases"] if st["sh"] == sh}
     if not states:
         raise MachineryError("shape %s is not in the family of DoWhile.tla" % sh)
-    execute(chk, [(sh, p, states, os.path.join(chk.scratch, "replay"), label_of(sh))], 1)
+    execute(chk, [(sh, p, states, os.path.join(chk.scratch, "replay"), label_of(sh), rp.get("via", "controller"))], 1)
     return chk.finish()
